@@ -317,36 +317,61 @@ def _rebuild(L, p):
 
 
 # ------------------------------------------------------------------ part 4
-def h_radii(h):
-    """correct_out_of_range_radii: corrected radii fit the chord, never shrink, scale uniformly"""
-    A = h.m.arc_to_cubic
-    G = h.m.geometric_types
-    s = (h.real("sx"), h.real("sy"))
-    e = (h.real("ex"), h.real("ey"))
-    rx, ry = h.real("rx"), h.real("ry")
-    h.assume(rx > 0)
-    h.assume(ry > 0)
-    arc = A.EllipticalArc(G.Point(*s), rx, ry, 0, 0, 1, G.Point(*e))
-    fixed = arc.correct_out_of_range_radii()
-    half = F(1, 2) if h.symbolic else 0.5
-    hx, hy = (s[0] - e[0]) * half, (s[1] - e[1]) * half
-    lhs = hx * hx * (fixed.ry * fixed.ry) + hy * hy * (fixed.rx * fixed.rx)
-    rhs = (fixed.rx * fixed.rx) * (fixed.ry * fixed.ry)
-    slack = F(1, 10**9) if h.symbolic else 1e-9
-    h.check(h.le(lhs, rhs * (1 + slack)), "radii.corrected_radii_fit_the_chord")
-    h.check(h.and_(h.le(rx, fixed.rx), h.le(ry, fixed.ry)), "radii.never_shrink")
-    h.check_eq(fixed.rx * ry, fixed.ry * rx, "radii.scaled_uniformly")
-    # radii that already fit are left alone
-    fits = h.le(hx * hx * (ry * ry) + hy * hy * (rx * rx), (rx * rx) * (ry * ry))
-    if h.is_true(fits):
-        h.check(h.and_(h.eq(fixed.rx, rx), h.eq(fixed.ry, ry)), "radii.fitting_radii_unchanged")
-    return []
+# rotations whose cos/sin are (within 1e-16) the Pythagorean rationals 4/5,3/5 and 12/13,5/13: small
+# coefficients keep nlsat fast; the sign/quadrant varies
+RADII_ROTATIONS = [0, 36.86989764584402, 90, -22.619864948040426, 216.86989764584402]
+
+
+def make_radii(rot, sx_sign, sy_sign):
+  def h_radii(h):
+      """correct_out_of_range_radii for radii of either sign and a rotated ellipse frame: the corrected
+      radii are positive, fit the chord IN THE ELLIPSE'S OWN FRAME (SVG F.6.6: x1' = cos(phi) dx/2 +
+      sin(phi) dy/2, y1' = -sin(phi) dx/2 + cos(phi) dy/2), never shrink, scale uniformly, and are
+      left alone when they fit"""
+      A = h.m.arc_to_cubic
+      G = h.m.geometric_types
+      s = (h.real("sx"), h.real("sy"))
+      e = (h.real("ex"), h.real("ey"))
+      rx, ry = h.real("rx"), h.real("ry")
+      h.assume(h.not_(h.eq(rx, 0)))
+      h.assume(h.not_(h.eq(ry, 0)))
+      h.assume(h.lt(0, rx) if sx_sign > 0 else h.lt(rx, 0))
+      h.assume(h.lt(0, ry) if sy_sign > 0 else h.lt(ry, 0))
+      arx = rx if sx_sign > 0 else -rx
+      ary = ry if sy_sign > 0 else -ry
+      arc = A.EllipticalArc(G.Point(*s), rx, ry, rot, 0, 1, G.Point(*e))
+      fixed = arc.correct_out_of_range_radii()
+      half = F(1, 2) if h.symbolic else 0.5
+      dx, dy = (s[0] - e[0]) * half, (s[1] - e[1]) * half
+      phi = math.radians(rot)
+      cph, sph = math.cos(phi), math.sin(phi)
+      if h.symbolic:
+          cph, sph = F(cph).limit_denominator(10**6), F(sph).limit_denominator(10**6)
+      hx, hy = cph * dx + sph * dy, -sph * dx + cph * dy
+      if h.is_true(h.and_(h.eq(dx, 0), h.eq(dy, 0))):
+          return ["zero-length"]  # no ellipse is drawn: nothing to fit
+      h.check(h.and_(h.lt(0, fixed.rx), h.lt(0, fixed.ry)), "radii.corrected_radii_positive")
+      lhs = hx * hx * (fixed.ry * fixed.ry) + hy * hy * (fixed.rx * fixed.rx)
+      rhs = (fixed.rx * fixed.rx) * (fixed.ry * fixed.ry)
+      slack = F(1, 10**9) if h.symbolic else 1e-9
+      h.check(h.le(lhs, rhs * (1 + slack)), "radii.corrected_radii_fit_the_chord")
+      h.check(h.and_(h.le(arx, fixed.rx * (1 + slack)), h.le(ary, fixed.ry * (1 + slack))), "radii.never_shrink")
+      h.check(h.close(fixed.rx * ary, fixed.ry * arx, slack * (1 + h.abs(fixed.rx * ary))) if not h.symbolic else h.eq(fixed.rx * ary, fixed.ry * arx), "radii.scaled_uniformly")
+      # radii that already fit (with room to spare against the float sin/cos) are left alone
+      fits = h.le((hx * hx * (ary * ary) + hy * hy * (arx * arx)) * (1 + slack), (arx * arx) * (ary * ary))
+      if h.is_true(fits):
+          h.check(h.and_(h.eq(fixed.rx, arx), h.eq(fixed.ry, ary)), "radii.fitting_radii_unchanged")
+      return []
+
+  return h_radii
 
 
 def make_flags(large, sweep):
-    """general symbolic arc (radii fit, rotation 0): theta_arc has the sign the sweep
-    flag selects and spans at most a full turn (linear consequences of the code's
-    wrap-around given atan2's range)"""
+    """general symbolic arc (rotation 0, radii of EITHER sign, corrected as the converter corrects
+    them): the direction in user space is the sign of theta_arc times the orientation rx*ry of the
+    map from the unit circle (part 2 proves the control points are that map's image): it must be
+    the direction the sweep flag selects; theta_arc spans at most a full turn (linear consequences
+    of the code's wrap-around given atan2's range)"""
 
     def h_flags(h):
         A = h.m.arc_to_cubic
@@ -354,19 +379,27 @@ def make_flags(large, sweep):
         s = (h.real("sx"), h.real("sy"))
         e = (h.real("ex"), h.real("ey"))
         rx, ry = h.real("rx"), h.real("ry")
-        h.assume(rx > 0)
-        h.assume(ry > 0)
+        h.assume(h.not_(h.eq(rx, 0)))
+        h.assume(h.not_(h.eq(ry, 0)))
         h.assume(h.not_(h.and_(h.eq(s[0], e[0]), h.eq(s[1], e[1]))))
         arc = A.EllipticalArc(G.Point(*s), rx, ry, 0, large, sweep, G.Point(*e))
         try:
-            par = arc.end_to_center_parametrization()
+            fixed = arc.correct_out_of_range_radii()
+            par = fixed.end_to_center_parametrization()
         except ZeroDivisionError:
             h.tag("zero-division")
             return ["zde"]
+        # orientation of unit circle -> user space (forks on the signs: keeps the checks linear)
+        px = h.is_true(h.lt(0, fixed.rx))
+        py = h.is_true(h.lt(0, fixed.ry))
+        keeps = px == py
+        h.tag("orientation-kept" if keeps else "orientation-reversed")
+        forward = h.le(0, par.theta_arc) if keeps else h.le(par.theta_arc, 0)
+        backward = h.le(par.theta_arc, 0) if keeps else h.le(0, par.theta_arc)
         if sweep:
-            h.check(h.le(0, par.theta_arc), "flags.sweep_positive_angle")
+            h.check(forward, "flags.sweep_positive_direction")
         else:
-            h.check(h.le(par.theta_arc, 0), "flags.no_sweep_negative_angle")
+            h.check(backward, "flags.no_sweep_negative_direction")
         two_pi = F(math.pi) * 2 + F(1, 10**9) if h.symbolic else 2 * math.pi + 1e-9
         h.check(h.le(h.abs(par.theta_arc), two_pi), "flags.at_most_full_turn")
         return []
@@ -423,7 +456,10 @@ def make_centre(idx, large, sweep):
 
 
 def cases(tier, seed):
-    cs = [{"part": "degenerate"}, {"part": "segments"}, {"part": "accuracy"}, {"part": "radii"}]
+    cs = [{"part": "degenerate"}, {"part": "segments"}, {"part": "accuracy"}]
+    for rot in RADII_ROTATIONS[:3] if tier == "quick" else RADII_ROTATIONS:
+        for sgn in ((1, 1), (-1, 1), (1, -1), (-1, -1)) if rot in RADII_ROTATIONS[:2] else ((1, 1), (-1, 1)):
+            cs.append({"part": "radii", "rotation": rot, "signs": list(sgn)})
     for l in (0, 1):
         for s in (0, 1):
             cs.append({"part": "flags", "large": l, "sweep": s})
@@ -443,7 +479,7 @@ def harness_for(case):
     if p == "accuracy":
         return h_accuracy
     if p == "radii":
-        return h_radii
+        return make_radii(case["rotation"], *case["signs"])
     if p == "centre":
         return make_centre(case["arc"], case["large"], case["sweep"])
     return make_flags(case["large"], case["sweep"])
@@ -452,6 +488,8 @@ def harness_for(case):
 def run_case(case, tier):
     m = c12_mods()
     opts = {"int_enum_bound": 6, "axioms": (), "branch_ms": 3000, "nlsat_ms": 20000}
+    if case["part"] == "radii":
+        opts["snap_trig"] = True  # cos/sin of the concrete rotation as small rationals (error < 1e-12 << slack 1e-9)
     if case["part"] == "flags":
         opts["branch_ms"] = 400  # branch feasibility is over-approximated; the theta checks are linear
     return common.run_symbolic(
